@@ -446,11 +446,12 @@ def _fs_case(a1, edit, a2, a3, auto_reload, choice, sub):
         if edit:
             with open(path, "w") as fd:
                 fd.write("version two {{ g }}")
-            os.utime(path, (2000, 2000))
+            # 1: modified later; 2: replaced by a file with an OLDER time stamp (restored backup, cp -p, rsync -t); 3: same time stamp
+            os.utime(path, {1: (2000, 2000), 2: (500, 500), 3: (1000, 1000)}[edit])
         r2c, r2p = request(env_c, name, None, a2, 5), request(env_p, name, None, a2, 5)
         r3c, r3p = request(env_c, name, None, a3, None), request(env_p, name, None, a3, None)
-        if edit and not auto_reload:
-            # a stale source is by design without auto-reload: only name and path must agree
+        if (edit and not auto_reload) or edit == 3:
+            # a stale source is by design without auto-reload (and undetectable with an unchanged time stamp): only name and path must agree
             return ok and r2c[:3] == r2p[:3] and r3c[:3] == r3p[:3]
         return ok and r2c == r2p and r3c == r3p
     finally:
@@ -458,15 +459,16 @@ def _fs_case(a1, edit, a2, a3, auto_reload, choice, sub):
         shutil.rmtree(root, ignore_errors=True)
 
 
-def c23_fs_reload(a1: bool, edit: bool, a2: bool, a3: bool, auto_reload: bool, choice: bool, sub: bool) -> bool:
+def c23_fs_reload(a1: bool, edit: int, a2: bool, a3: bool, auto_reload: bool, choice: bool, sub: bool) -> bool:
     """
+    pre: 0 <= edit <= 3
     post: _
     """
     # request (sync/async), optionally edit the file, request, request: every answer equals the
     # non-caching file system loader's (the changed source is picked up when auto-reload is on)
     if excluded("c23_fs_reload", locals()):
         return True
-    args = (cbool(a1), cbool(edit), cbool(a2), cbool(a3), cbool(auto_reload), cbool(choice), cbool(sub))
+    args = (cbool(a1), cint(edit, 0, 3), cbool(a2), cbool(a3), cbool(auto_reload), cbool(choice), cbool(sub))
     return finish(untraced(lambda: _fs_case(*args)))
 
 
